@@ -228,7 +228,7 @@ def run_case(case, ctx):
     else:
         text_g = cfg.to_parglare(extra_rules=LAYOUT_RULES.strip(), extra_terminals=LAYOUT_TERMS.strip())
         lex = CommentLexicon(cfg.terms)
-    tt = [L2_TEXT[n] if l2 else v for n, k_, v in cfg.terms]
+    tt = [L2_TEXT.get(n, v) if l2 else v for n, k_, v in cfg.terms]
     import itertools
     words = []
     for n in range(0, case["max_len"] + 1):
@@ -247,13 +247,27 @@ def run_case(case, ctx):
     ctx.label("layout:" + layout)
     ctx.label("lex:" + case["lex"])
     cyclic = cfg.is_cyclic()
+    if case["lex"] == "L1":
+        # overlapping lexicon: character level inputs with layout inserted at
+        # generated places (lexical ambiguity forks GLR heads)
+        texts = []
+        fl = [f for f in case["fill"] if f] or [" "]
+        for k, s0 in enumerate(G.char_inputs("ab", case["max_len"])):
+            f = fl[k % len(fl)]
+            texts.append(s0)
+            for i in range(0, len(s0) + 1):
+                texts.append(s0[:i] + f + s0[i:])
+            if len(s0) >= 2:
+                texts.append(s0[:1] + f + s0[1:-1] + f + s0[-1:])
+        words = [[t] for t in texts]
     for k, w in enumerate(words):
-        text = render(w, case["fill"], k, l2)
+        text = render(w, case["fill"], k, l2) if case["lex"] != "L1" else w[0]
         chart = Chart(cfg, lex, text)
         if not chart.accepts():
             continue
         info = dict(grammar=text_g, input=text)
-        nlayout = sum(1 for i in range(len(w) + 1) if case["fill"][(i + k) % len(case["fill"])] != "")
+        nlayout = sum(1 for i in range(len(w) + 1) if case["fill"][(i + k) % len(case["fill"])] != "") \
+            if case["lex"] != "L1" else (2 if text != text.strip() or " " in text.strip() else 0)
         has_empty_any = False
         # ---- GLR ---------------------------------------------------------
         out = G.run_parse(glr, text)
@@ -346,6 +360,15 @@ def strat_l2(tier):
                           terms_pool=gen.L2_TERMS), "L2")
 
 
+def strat_l1(tier):
+    @st.composite
+    def c(draw):
+        g = draw(gen.cfgs(max_nts=3, max_alts=3, max_rhs=3, min_terms=2, max_terms=4, terms_pool=gen.L1_TERMS))
+        fill = draw(st.lists(st.sampled_from([" ", "\n", "  ", "\t"]), min_size=1, max_size=3))
+        return {"g": g, "lex": "L1", "layout": "ws", "fill": fill, "max_len": 4}
+    return c()
+
+
 def strat_chain(tier):
     return _case(gen.nullable_chain_cfgs(), "L0")
 
@@ -373,6 +396,7 @@ SUBCHECKS = [
     SubCheck("epsilon-family", run_case, enumerate=enum_epsilon),
     SubCheck("random-L0", run_case, strategy=strat_l0, examples={"quick": 1600, "thorough": 16000}),
     SubCheck("random-L2-multichar", run_case, strategy=strat_l2, examples={"quick": 640, "thorough": 6400}),
+    SubCheck("random-L1-overlapping", run_case, strategy=strat_l1, examples={"quick": 640, "thorough": 6400}),
     SubCheck("nullable-chain-family", run_case, strategy=strat_chain, examples={"quick": 640, "thorough": 6400}),
 ]
 
